@@ -102,15 +102,28 @@ def check_selectors(chk, rep, repo):
 
 def check_row_ids(chk, rep, repo, only=None, floor=3):
     n = 0
+    # a private helper (other than the graph builders themselves) is analysed inside the functions that call it, where
+    # the arrays it receives have the caller's names; it is not analysed a second time on its own
+    anchors = ("_build", "_load", "_read_distances")
+
+    def helper_of(fi):
+        return lambda f: f.name.startswith("_") and not f.name.startswith("__") and f.name not in anchors \
+            and f.module == fi.module and (f.cls is None or f.cls == fi.cls)
+    walks = {}
     for fi in repo.all_functions():
         if fi.module.startswith("opfython.utils"):
             continue
         if only is not None and fi.qual not in only:
             continue
         if only is not None and fi.cls:
-            w = model_walk(repo, fi.cls, fi.name)  # with the entry point's private helpers inlined
+            walks[fi.fq] = (fi, model_walk(repo, fi.cls, fi.name))  # with the entry point's private helpers inlined
         else:
-            w = Walker(repo, fi, self_class=fi.cls, inline=lambda f: False)
+            walks[fi.fq] = (fi, Walker(repo, fi, self_class=fi.cls, inline=helper_of(fi)))
+    inlined = {fq for _, w in walks.values() for fq in w.inlined}
+    for fq, (fi, w) in walks.items():
+        if only is None and fq in inlined and fi.name.startswith("_") and not fi.name.startswith("__") \
+                and fi.name not in anchors:
+            continue
         for ev in w.events:
             if not (ev.kind == "call" and ev.name == "__new__" and ev.value[0] == "new" and ev.value[1] == "Node"):
                 continue
@@ -205,7 +218,8 @@ def _check_forwarding(chk, rep, repo):
 def check_constructor_forwarding(rep, repo):
     # ... and the graph constructors hand that array on, on every path, to the method that creates the nodes
     fi = repo.need_method("Subgraph", "__init__")
-    w = Walker(repo, fi, self_class="Subgraph", inline=lambda f: False)
+    w = Walker(repo, fi, self_class="Subgraph", inline=lambda f: f.cls == "Subgraph" and f.name.startswith("_")
+               and not f.name.startswith("__") and f.name not in ("_build", "_load"))
     builds = [e for e in w.events if e.kind == "call" and e.name == "_build" and e.target == ("attr", ("self",), "_build")]
     bfi = repo.need_method("Subgraph", "_build")
     names = bfi.params[1:]
@@ -218,7 +232,8 @@ def check_constructor_forwarding(rep, repo):
     rep.fn("ID-forward-present", fi, "Subgraph.__init__ builds its nodes through _build", len(builds) >= 1,
            "no call of self._build in the constructor")
     kfi = repo.need_method("KNNSubgraph", "__init__")
-    wk = Walker(repo, kfi, self_class="KNNSubgraph", inline=lambda f: False)
+    wk = Walker(repo, kfi, self_class="KNNSubgraph", inline=lambda f: f.cls == "KNNSubgraph" and f.name.startswith("_")
+                and not f.name.startswith("__"))
     sup = [e for e in wk.events if e.kind == "call" and e.name == "__init__"]
     oks = False
     for e in sup:
@@ -445,7 +460,8 @@ def check_constructor_config(rep, repo):
     flag is False and no matrix is kept. The selector sites trust these two fields."""
     from ..ir import facts, mk_not
     fi = repo.need_method("OPF", "__init__")
-    w = Walker(repo, fi, self_class="OPF", inline=lambda f: False)
+    w = Walker(repo, fi, self_class="OPF", inline=lambda f: f.cls == "OPF" and f.name.startswith("_")
+               and not f.name.startswith("__") and f.name != "_read_distances")
     pf = ("param", "pre_computed_distance")
     flag = ("attr", ("self",), "pre_computed_distance")
     bpf = ("call", ("builtin", "bool"), (pf,), ())
